@@ -12,6 +12,7 @@ mod exact;
 mod gen;
 mod monitor;
 mod props;
+mod qplib_model;
 mod rng;
 
 use monitor::Monitor;
